@@ -31,6 +31,14 @@ def run(ctx):
         ctx.guard("soft-failure" + tag, c02.unsolvable_at_root, ctx, crate, crs, tag)
         ctx.guard("soft-loop" + tag, c04.soft_precondition, ctx, crate, crs, tag)
         ctx.guard("soft-loop" + tag, soft_loop, ctx, crate, crs, tag)
+        # "the returned set still satisfies C01 for the hard requirements and for every accepted soft solvable": the encoding
+        # rules of C01 and the what-gets-encoded rules of C09 apply unchanged to soft runs
+        import c01, c09
+        ctx.guard("encoding" + tag, c01.encoding, ctx, crate, crs, tag)
+        ctx.guard("new-solvables" + tag, c09.new_solvables, ctx, crate, crs, tag)
+        ctx.guard("assertions" + tag, c01.assertions, ctx, crate, crs, tag)
+        import c15
+        ctx.guard("soft-solvables-registered" + tag, c15.soft_registered, ctx, crate, crs, tag)
 
 
 def starting_level_local(b):
